@@ -71,3 +71,12 @@ Proof.
   destruct (run_stream (length w + 2) c o init w) as [[its tr] sf]. cbn [fst snd]. rewrite <- Hr.
   apply size_rule.
 Qed.
+
+Theorem bytes_accept_rule : forall c o w,
+  forallb (accept_ok c) (dialogue (snd (fst (run_bytes c o w)))) = true.
+Proof.
+  intros c o w. unfold run_bytes.
+  pose proof (run_stream_run (length w + 2) c o init w) as Hr.
+  destruct (run_stream (length w + 2) c o init w) as [[its tr] sf]. cbn [fst snd] in *.
+  rewrite <- Hr. apply accept_rule.
+Qed.
